@@ -181,10 +181,12 @@ Proof.
   - destruct (v0 =? 21) eqn:B; [|discriminate]. injection H as <-. apply N.eqb_eq in B. subst. exists true. auto.
 Qed.
 
-Lemma bytes_shape pt i v : dec_g pt SBytes i = Some v -> is_nil (strip i) = false ->
+Definition is_arr (j : item) : bool := match j with Arr _ _ => true | _ => false end.
+
+Lemma bytes_shape pt i v : dec_g pt SBytes i = Some v -> is_nil (strip i) = false -> is_arr (strip i) = false ->
   exists bs, v = VBytes bs /\ ((exists f, strip i = BStr f bs) \/ (exists cs, strip i = BStrI cs /\ bs = flat_map snd cs)).
 Proof.
-  cbn [dec_g]. intros H Hn. rewrite Hn in H. destruct (strip i); try discriminate; cbn in H; injection H as <-.
+  cbn [dec_g]. intros H Hn Ha. rewrite Hn in H. destruct (strip i); try discriminate; cbn in H; injection H as <-.
   - eexists. split; [reflexivity|]. left. eauto.
   - eexists. split; [reflexivity|]. right. eauto.
 Qed.
